@@ -1,0 +1,29 @@
+// SPDX-FileCopyrightText: 2022-present Intel Corporation
+//
+// SPDX-License-Identifier: Apache-2.0
+
+//go:build verif
+
+// Contracts for the deductive verifier in /verif (govc). Comment-only: this file contains no code
+// and is excluded from every build that does not set the "verif" tag.
+
+package pluginregistry
+
+//@ ghost validateCalls int
+//@ ghost lastValidateAccepted bool
+//@ ghost lastValidateDoc int
+
+//@ iface PluginRegistry.GetPlugin(model, version) (plugin, ok)
+//@   modifies nothing
+//@   ensures ok ==> plugin != nil
+
+//@ iface ModelPlugin.Validate(ctx, jsonData) (err)
+//@   modifies validateCalls, lastValidateAccepted, lastValidateDoc
+//@   ensures validateCalls == old(validateCalls) + 1
+//@   ensures lastValidateAccepted == (err == nil)
+//@   ensures lastValidateDoc == docID(jsonData)
+//@ uninterp docID([]byte) int
+
+//@ iface ModelPlugin.Capabilities(ctx) (resp)
+//@   modifies nothing
+//@   ensures resp != nil
